@@ -14,7 +14,7 @@ structure Inv (t : Tbl) : Prop where
   keysHash : ∀ k ∈ t.keys, arrIdx t.mai k = none
   keysNodup : t.keys.Nodup
   k2iInv   : ∀ (i : Nat) (k : Val), t.keys[i]? = some k → k2iGet t.k2i k = some i
-  emptyOk  : (t.dict.isEmpty ∧ t.strdict.isEmpty) → ∀ k, rawGetH t k = none
+  k2iConv  : ∀ (i : Nat) (k : Val), k2iGet t.k2i k = some i → t.keys[i]? = some k
 
 /-- iterate `Next` from nil, collecting the pairs; the fuel bounds the number of steps (running out of
     fuel is reported as an error, so `traverse t = .ok l` includes termination). -/
@@ -32,15 +32,603 @@ def traverseAux (t : Tbl) : Nat → OVal → Except Err (List (Val × Val))
 def traverse (t : Tbl) : Except Err (List (Val × Val)) :=
   traverseAux t (t.array.length + t.keys.length + 2) none
 
+/-! ### the invariant is established and maintained -/
+
 theorem inv_empty {mai : Nat} : Inv { mai := mai } := by
-  sorry
+  constructor <;> simp [alGet, k2iGet]
+
+theorem k2iGet_append (l : List (Val × Nat)) (k : Val) (n : Nat) (k' : Val) :
+    k2iGet (l ++ [(k, n)]) k' =
+      match k2iGet l k' with
+      | some i => some i
+      | none => if k = k' then some n else none := by
+  induction l with
+  | nil => simp [k2iGet]
+  | cons p r ih =>
+    obtain ⟨a, b⟩ := p
+    simp only [List.cons_append, k2iGet]
+    split
+    · rfl
+    · exact ih
+
+theorem inv_setArr (t : Tbl) (n : Nat) (v : OVal) (hn0 : 0 < n) (hn : n < t.mai) (h : Inv t) : Inv (setArr t n v) := by
+  have hs : (setArr t n v).strdict = t.strdict := by simp only [setArr]; split; rfl; split <;> rfl
+  have hd : (setArr t n v).dict = t.dict := by simp only [setArr]; split; rfl; split <;> rfl
+  have hk : (setArr t n v).keys = t.keys := by simp only [setArr]; split; rfl; split <;> rfl
+  have hi : (setArr t n v).k2i = t.k2i := by simp only [setArr]; split; rfl; split <;> rfl
+  have hl : (setArr t n v).array.length < t.mai := by
+    have hlen : t.array.length < t.mai ∨ t.array.length = 0 := by
+      rcases h.arrLt with h1 | h1
+      · exact Or.inl h1
+      · right; rw [h1]; rfl
+    simp only [setArr]; split
+    · simp only [List.length_append, List.length_cons, List.length_nil]; omega
+    · split
+      · simp only [List.length_append, List.length_cons, List.length_nil, List.length_replicate]; omega
+      · simp only [List.length_set]; omega
+  constructor
+  · left; rw [setArr_mai]; exact hl
+  · rw [hs, hk]; exact h.strKeys
+  · rw [hd, hk, setArr_mai]; exact h.dictKeys
+  · rw [hk, setArr_mai]; exact h.keysHash
+  · rw [hk]; exact h.keysNodup
+  · rw [hk, hi]; exact h.k2iInv
+  · rw [hk, hi]; exact h.k2iConv
+
+/-- `noteKey` keeps the bookkeeping part of the invariant and makes `k` a listed key. -/
+theorem noteKey_keys (t : Tbl) (k : Val)
+    (hN : t.keys.Nodup)
+    (hI : ∀ (i : Nat) (k : Val), t.keys[i]? = some k → k2iGet t.k2i k = some i)
+    (hC : ∀ (i : Nat) (k : Val), k2iGet t.k2i k = some i → t.keys[i]? = some k) :
+    k ∈ (noteKey t k).keys ∧ (∀ k' ∈ t.keys, k' ∈ (noteKey t k).keys) ∧
+    (∀ k' ∈ (noteKey t k).keys, k' = k ∨ k' ∈ t.keys) ∧
+    (noteKey t k).keys.Nodup ∧
+    (∀ (i : Nat) (k' : Val), (noteKey t k).keys[i]? = some k' → k2iGet (noteKey t k).k2i k' = some i) ∧
+    (∀ (i : Nat) (k' : Val), k2iGet (noteKey t k).k2i k' = some i → (noteKey t k).keys[i]? = some k') := by
+  unfold noteKey
+  cases hk : k2iGet t.k2i k with
+  | some i =>
+    simp only
+    refine ⟨?_, fun _ h => h, fun _ h => Or.inr h, hN, hI, hC⟩
+    exact List.mem_of_getElem? (hC i k hk)
+  | none =>
+    simp only
+    have hnot : k ∉ t.keys := by
+      intro hm
+      obtain ⟨i, hi, he⟩ := List.getElem_of_mem hm
+      have := hI i k (by rw [List.getElem?_eq_getElem hi, he])
+      rw [hk] at this; cases this
+    refine ⟨by simp, fun _ h => by simp [h], ?_, ?_, ?_, ?_⟩
+    · intro k' h'
+      simp at h'
+      rcases h' with h' | h'
+      · exact Or.inr h'
+      · exact Or.inl h'
+    · rw [List.nodup_append]
+      refine ⟨hN, by simp, ?_⟩
+      intro a ha b hb
+      simp at hb; subst hb
+      intro e; subst e; exact hnot ha
+    · intro i k' hi
+      rw [k2iGet_append]
+      by_cases hlt : i < t.keys.length
+      · rw [List.getElem?_append_left hlt] at hi
+        rw [hI i k' hi]
+      · rw [List.getElem?_append_right (by omega)] at hi
+        have hi0 : i - t.keys.length = 0 := by
+          by_cases h0 : i - t.keys.length = 0
+          · exact h0
+          · rw [List.getElem?_eq_none (by simp; omega)] at hi; cases hi
+        rw [hi0] at hi
+        simp at hi; subst hi
+        rw [hk]; simp; omega
+    · intro i k' hi
+      rw [k2iGet_append] at hi
+      cases hk' : k2iGet t.k2i k' with
+      | some j =>
+        rw [hk'] at hi; simp at hi; subst hi
+        have := hC j k' hk'
+        have hlt : j < t.keys.length := by
+          by_cases hlt : j < t.keys.length
+          · exact hlt
+          · rw [List.getElem?_eq_none (by omega)] at this; cases this
+        rw [List.getElem?_append_left hlt]; exact this
+      | none =>
+        rw [hk'] at hi; simp at hi
+        obtain ⟨rfl, rfl⟩ := hi
+        simp
+
+theorem inv_rawSetString (t : Tbl) (k : Val) (v : OVal) (hs : isStr k = true) (h : Inv t) :
+    Inv (rawSetString t k v) := by
+  have hidx : arrIdx t.mai k = none := by cases k <;> simp_all [isStr, arrIdx]
+  cases v with
+  | none =>
+    simp only [rawSetString]
+    constructor
+    · exact h.arrLt
+    · intro k' v' hg
+      simp only [alGet_alDel] at hg
+      split at hg
+      · cases hg
+      · exact h.strKeys k' v' hg
+    · exact h.dictKeys
+    · exact h.keysHash
+    · exact h.keysNodup
+    · exact h.k2iInv
+    · exact h.k2iConv
+  | some x =>
+    simp only [rawSetString]
+    obtain ⟨ha, hsd, hdd⟩ := noteKey_fields { t with strdict := alSet t.strdict k x } k
+    obtain ⟨h1, h2, h3, h4, h5, h6⟩ :=
+      noteKey_keys { t with strdict := alSet t.strdict k x } k h.keysNodup h.k2iInv h.k2iConv
+    constructor
+    · rw [ha, noteKey_mai]; exact h.arrLt
+    · intro k' v' hg
+      rw [hsd] at hg
+      simp only [alGet_alSet] at hg
+      split at hg
+      · rename_i e; subst e; exact ⟨hs, h1⟩
+      · obtain ⟨a, b⟩ := h.strKeys k' v' hg
+        exact ⟨a, h2 k' b⟩
+    · intro k' v' hg
+      rw [hdd] at hg
+      rw [noteKey_mai]
+      obtain ⟨a, b, c⟩ := h.dictKeys k' v' hg
+      exact ⟨a, b, h2 k' c⟩
+    · intro k' hk'
+      rw [noteKey_mai]
+      rcases h3 k' hk' with e | e
+      · subst e; exact hidx
+      · exact h.keysHash k' e
+    · exact h4
+    · exact h5
+    · exact h6
+
+theorem inv_rawSetDict (t : Tbl) (k : Val) (v : OVal) (hs : isStr k = false) (hidx : arrIdx t.mai k = none)
+    (h : Inv t) : Inv (rawSetH t k v) := by
+  cases v with
+  | none =>
+    simp only [rawSetH, hs, Bool.false_eq_true, if_false]
+    constructor
+    · exact h.arrLt
+    · exact h.strKeys
+    · intro k' v' hg
+      simp only [alGet_alDel] at hg
+      split at hg
+      · cases hg
+      · exact h.dictKeys k' v' hg
+    · exact h.keysHash
+    · exact h.keysNodup
+    · exact h.k2iInv
+    · exact h.k2iConv
+  | some x =>
+    simp only [rawSetH, hs, Bool.false_eq_true, if_false]
+    obtain ⟨ha, hsd, hdd⟩ := noteKey_fields { t with dict := alSet t.dict k x } k
+    obtain ⟨h1, h2, h3, h4, h5, h6⟩ :=
+      noteKey_keys { t with dict := alSet t.dict k x } k h.keysNodup h.k2iInv h.k2iConv
+    constructor
+    · rw [ha, noteKey_mai]; exact h.arrLt
+    · intro k' v' hg
+      rw [hsd] at hg
+      obtain ⟨a, b⟩ := h.strKeys k' v' hg
+      exact ⟨a, h2 k' b⟩
+    · intro k' v' hg
+      rw [hdd] at hg
+      rw [noteKey_mai]
+      simp only [alGet_alSet] at hg
+      split at hg
+      · rename_i e; subst e; exact ⟨hs, hidx, h1⟩
+      · obtain ⟨a, b, c⟩ := h.dictKeys k' v' hg
+        exact ⟨a, b, h2 k' c⟩
+    · intro k' hk'
+      rw [noteKey_mai]
+      rcases h3 k' hk' with e | e
+      · subst e; exact hidx
+      · exact h.keysHash k' e
+    · exact h4
+    · exact h5
+    · exact h6
 
 theorem inv_rawSet (t : Tbl) (k : Val) (v : OVal) (h : Inv t) : Inv (rawSet t k v) := by
-  sorry
+  unfold rawSet
+  cases hk : arrIdx t.mai k with
+  | some n =>
+    simp only
+    exact inv_setArr t n v (arrIdx_some hk).2.1 (arrIdx_some hk).2.2 h
+  | none =>
+    simp only
+    by_cases hs : isStr k = true
+    · simp only [hs, if_true]; exact inv_rawSetString t k v hs h
+    · have hs0 : isStr k = false := by simpa using hs
+      simp only [hs0, Bool.false_eq_true, if_false]
+      exact inv_rawSetDict t k v hs0 hk h
 
-theorem traverse_complete (t : Tbl) (h : Inv t) :
+/-! ### `scanArr` -/
+
+theorem scanArr_ge (a : List OVal) (j : Nat) (h : a.length ≤ j) : scanArr a j = none := by
+  induction a generalizing j with
+  | nil => simp [scanArr]
+  | cons x r ih =>
+    cases j with
+    | zero => simp at h
+    | succ s =>
+      simp only [scanArr]
+      rw [ih s (by simpa using h)]; rfl
+
+theorem scanArr_hole (a : List OVal) (j : Nat) (h : a[j]? = some none) : scanArr a j = scanArr a (j + 1) := by
+  induction a generalizing j with
+  | nil => simp at h
+  | cons x r ih =>
+    cases j with
+    | zero =>
+      simp at h; subst h
+      simp only [scanArr]
+    | succ s =>
+      simp only [List.getElem?_cons_succ] at h
+      simp only [scanArr]
+      rw [ih s h]
+
+theorem scanArr_hit (a : List OVal) (j : Nat) (v : Val) (h : a[j]? = some (some v)) :
+    scanArr a j = some (j + 1, v) := by
+  induction a generalizing j with
+  | nil => simp at h
+  | cons x r ih =>
+    cases j with
+    | zero =>
+      simp at h; subst h
+      simp only [scanArr]
+    | succ s =>
+      simp only [List.getElem?_cons_succ] at h
+      simp only [scanArr]
+      rw [ih s h]; rfl
+
+/-! ### what `Next` returns under the invariant -/
+
+/-- the live pairs of the hash part, in `keys` order. -/
+def keyPairs (t : Tbl) (ks : List Val) : List (Val × Val) :=
+  ks.filterMap (fun k => (rawGetH t k).map (fun v => (k, v)))
+
+/-- the live pairs of the array part, in index order (`off` = number of entries already passed). -/
+def arrPairs : List OVal → Nat → List (Val × Val)
+  | [], _ => []
+  | none :: r, off => arrPairs r (off + 1)
+  | some v :: r, off => (.int ((off + 1 : Nat) : Int), v) :: arrPairs r (off + 1)
+
+theorem scanKeys_empty (t : Tbl) (h : t.dict.isEmpty ∧ t.strdict.isEmpty) (ks : List Val) :
+    scanKeys t ks = none := by
+  obtain ⟨h1, h2⟩ := h
+  have e1 : t.dict = [] := by simpa using h1
+  have e2 : t.strdict = [] := by simpa using h2
+  induction ks with
+  | nil => rfl
+  | cons k r ih =>
+    have : rawGetH t k = none := by unfold rawGetH; rw [e1, e2]; split <;> rfl
+    simp only [scanKeys, this]; exact ih
+
+theorem hashFrom_at (t : Tbl) (h : Inv t) (i : Nat) (k : Val) (hk : t.keys[i]? = some k) :
+    hashFrom t k = scanKeys t (t.keys.drop (i + 1)) := by
+  unfold hashFrom; rw [h.k2iInv i k hk]; rfl
+
+/-- the block of `Next` entered when the array scan is exhausted: first live key of `keys`. -/
+theorem next_tail (t : Tbl) (h : Inv t) :
+    (if t.dict.isEmpty ∧ t.strdict.isEmpty then (.ok none : Except Err (Option (Val × Val)))
+      else match t.keys with
+        | [] => .error (.goPanic "Next: tb.keys[0]")
+        | k0 :: _ =>
+          match rawGetH t k0 with
+          | some v => .ok (some (k0, v))
+          | none => .ok (hashFrom t k0)) = .ok (scanKeys t t.keys) := by
+  by_cases he : t.dict.isEmpty ∧ t.strdict.isEmpty
+  · rw [if_pos he, scanKeys_empty t he]
+  · rw [if_neg he]
+    cases hks : t.keys with
+    | nil =>
+      exfalso; apply he
+      constructor
+      · cases hd : t.dict with
+        | nil => rfl
+        | cons p r =>
+          obtain ⟨a, b⟩ := p
+          have := (h.dictKeys a b (by rw [hd]; simp [alGet])).2.2
+          rw [hks] at this; cases this
+      · cases hd : t.strdict with
+        | nil => rfl
+        | cons p r =>
+          obtain ⟨a, b⟩ := p
+          have := (h.strKeys a b (by rw [hd]; simp [alGet])).2
+          rw [hks] at this; cases this
+    | cons k0 r =>
+      simp only [scanKeys]
+      cases hg : rawGetH t k0 with
+      | some v => rfl
+      | none =>
+        simp only
+        rw [hashFrom_at t h 0 k0 (by rw [hks]; rfl), hks]; rfl
+
+/-- `Next` on a key of the hash part: the next live key after it in `keys`. -/
+theorem next_hash (t : Tbl) (h : Inv t) (i : Nat) (k : Val) (hk : t.keys[i]? = some k) :
+    next t (some k) = .ok (scanKeys t (t.keys.drop (i + 1))) := by
+  have hidx := h.keysHash k (List.mem_of_getElem? hk)
+  have hf := hashFrom_at t h i k hk
+  unfold next
+  simp only [Option.isNone_some, Option.getD_some, Bool.false_eq_true, false_or]
+  cases k with
+  | int z =>
+    by_cases hz : z = 0
+    · subst hz; simp [hf]
+    · have : ¬ (0 ≤ z ∧ z < (t.mai : Int)) := by
+        simp [arrIdx] at hidx; omega
+      simp [hz, this, hf]
+  | flt b => simp [hf]
+  | str s => simp [hf]
+  | bool b => simp [hf]
+  | ref n => simp [hf]
+
+/-- `Next` from nil (`i = 0`) or from an array key `i` inside the array part. -/
+theorem next_arr (t : Tbl) (h : Inv t) (key0 : OVal) (i : Nat)
+    (hk : (key0 = none ∧ i = 0) ∨ (key0 = some (.int (i : Int)) ∧ 0 < i))
+    (hi : i < t.mai) (hl : i ≤ t.array.length) :
+    next t key0 = .ok (match scanArr t.array i with
+      | some (k, v) => some (.int (k : Int), v)
+      | none => scanKeys t t.keys) := by
+  have htail := next_tail t h
+  simp only [List.isEmpty_iff] at htail
+  rcases hk with ⟨rfl, rfl⟩ | ⟨rfl, h0⟩
+  · unfold next
+    simp [hi]
+    cases hs : scanArr t.array 0 with
+    | some p => rfl
+    | none => simp only; exact htail
+  · have hne : (Val.int (i : Int)) ≠ Val.int 0 := by intro e; injection e with e; omega
+    have hc : (i : Int) < (t.mai : Int) := by omega
+    unfold next
+    simp [hne, hc]
+    cases hs : scanArr t.array i with
+    | some p => rfl
+    | none => simp only [hl, or_true, if_true]; exact htail
+
+/-! ### the traversal -/
+
+theorem traverseAux_keys (t : Tbl) (h : Inv t) (ks : List Val) :
+    ∀ (pre : List Val) (f : Nat) (key : OVal), t.keys = pre ++ ks → ks.length + 1 ≤ f →
+      next t key = .ok (scanKeys t ks) → traverseAux t f key = .ok (keyPairs t ks) := by
+  induction ks with
+  | nil =>
+    intro pre f key _ hf hn
+    obtain ⟨f, rfl⟩ : ∃ g, f = g + 1 := ⟨f - 1, by omega⟩
+    simp only [traverseAux, hn, scanKeys]; rfl
+  | cons k r ih =>
+    intro pre f key hks hf hn
+    cases hg : rawGetH t k with
+    | none =>
+      have e1 : scanKeys t (k :: r) = scanKeys t r := by simp only [scanKeys, hg]
+      have e2 : keyPairs t (k :: r) = keyPairs t r := by simp [keyPairs, hg]
+      rw [e2]
+      apply ih (pre ++ [k]) f key (by simp [hks]) (by simp at hf; omega)
+      rw [hn, e1]
+    | some v =>
+      have e1 : scanKeys t (k :: r) = some (k, v) := by simp only [scanKeys, hg]
+      have e2 : keyPairs t (k :: r) = (k, v) :: keyPairs t r := by simp [keyPairs, hg]
+      obtain ⟨f, rfl⟩ : ∃ g, f = g + 1 := ⟨f - 1, by simp at hf; omega⟩
+      have hidx : t.keys[pre.length]? = some k := by rw [hks]; simp
+      have hnext := next_hash t h pre.length k hidx
+      have hdrop : t.keys.drop (pre.length + 1) = r := by rw [hks]; simp
+      rw [hdrop] at hnext
+      have := ih (pre ++ [k]) f (some k) (by simp [hks]) (by simp at hf; omega) hnext
+      simp only [traverseAux, hn, e1, this, e2]
+
+theorem traverseAux_arr (t : Tbl) (h : Inv t) (n : Nat) :
+    ∀ (j f : Nat) (key : OVal), t.array.length - j ≤ n → j ≤ t.array.length →
+      (t.array.length - j) + t.keys.length + 1 ≤ f →
+      next t key = .ok (match scanArr t.array j with
+        | some (k, v) => some (.int (k : Int), v)
+        | none => scanKeys t t.keys) →
+      traverseAux t f key = .ok (arrPairs (t.array.drop j) j ++ keyPairs t t.keys) := by
+  induction n with
+  | zero =>
+    intro j f key hn hj hf hnext
+    have hj' : t.array.length ≤ j := by omega
+    rw [scanArr_ge _ _ hj'] at hnext
+    rw [List.drop_eq_nil_of_le hj']
+    simp only [arrPairs, List.nil_append]
+    exact traverseAux_keys t h t.keys [] f key rfl (by omega) hnext
+  | succ n ih =>
+    intro j f key hn hj hf hnext
+    by_cases hj' : t.array.length ≤ j
+    · rw [scanArr_ge _ _ hj'] at hnext
+      rw [List.drop_eq_nil_of_le hj']
+      simp only [arrPairs, List.nil_append]
+      exact traverseAux_keys t h t.keys [] f key rfl (by omega) hnext
+    · have hlt : j < t.array.length := by omega
+      have hdrop : t.array.drop j = t.array[j] :: t.array.drop (j + 1) := List.drop_eq_getElem_cons hlt
+      have hget : t.array[j]? = some t.array[j] := List.getElem?_eq_getElem hlt
+      cases hx : t.array[j] with
+      | none =>
+        rw [hx] at hget
+        rw [scanArr_hole _ _ hget] at hnext
+        rw [hdrop, hx]
+        simp only [arrPairs]
+        exact ih (j + 1) f key (by omega) (by omega) (by omega) hnext
+      | some v =>
+        rw [hx] at hget
+        rw [scanArr_hit _ _ v hget] at hnext
+        rw [hdrop, hx]
+        simp only [arrPairs]
+        obtain ⟨f, rfl⟩ : ∃ g, f = g + 1 := ⟨f - 1, by omega⟩
+        have hmai : j + 1 < t.mai := by
+          rcases h.arrLt with h1 | h1
+          · omega
+          · rw [h1] at hlt; simp at hlt
+        have hn2 := next_arr t h (some (.int ((j + 1 : Nat) : Int))) (j + 1) (Or.inr ⟨rfl, by omega⟩) hmai (by omega)
+        have := ih (j + 1) f (some (.int ((j + 1 : Nat) : Int))) (by omega) (by omega) (by omega) hn2
+        simp only [traverseAux, hnext, this, List.cons_append]
+
+theorem traverse_eq (t : Tbl) (h : Inv t) (hm : 0 < t.mai) :
+    traverse t = .ok (arrPairs t.array 0 ++ keyPairs t t.keys) := by
+  have := traverseAux_arr t h t.array.length 0 (t.array.length + t.keys.length + 2) none
+    (by omega) (by omega) (by omega) (next_arr t h none 0 (Or.inl ⟨rfl, rfl⟩) hm (by omega))
+  simpa [traverse] using this
+
+/-! ### the visited pairs are exactly the present ones, each key once -/
+
+theorem mem_arrPairs (a : List OVal) (off : Nat) (k v : Val) :
+    (k, v) ∈ arrPairs a off ↔ ∃ i : Nat, a[i]? = some (some v) ∧ k = .int ((off + 1 + i : Nat) : Int) := by
+  induction a generalizing off with
+  | nil => simp [arrPairs]
+  | cons x r ih =>
+    cases x with
+    | none =>
+      simp only [arrPairs, ih]
+      constructor
+      · rintro ⟨i, h1, h2⟩
+        exact ⟨i + 1, by simpa using h1, by rw [h2]; congr 2; omega⟩
+      · rintro ⟨i, h1, h2⟩
+        cases i with
+        | zero => simp at h1
+        | succ i => exact ⟨i, by simpa using h1, by rw [h2]; congr 2; omega⟩
+    | some w =>
+      simp only [arrPairs, List.mem_cons, ih]
+      constructor
+      · rintro (h | ⟨i, h1, h2⟩)
+        · injection h with h1 h2
+          exact ⟨0, by simp [h2], by rw [h1]⟩
+        · exact ⟨i + 1, by simpa using h1, by rw [h2]; congr 2; omega⟩
+      · rintro ⟨i, h1, h2⟩
+        cases i with
+        | zero =>
+          left
+          simp at h1
+          rw [h2, h1]
+        | succ i => exact Or.inr ⟨i, by simpa using h1, by rw [h2]; congr 2; omega⟩
+
+theorem mem_arrPairs_keys (a : List OVal) (off : Nat) (k : Val) (h : k ∈ (arrPairs a off).map (·.1)) :
+    ∃ i : Nat, i < a.length ∧ k = .int ((off + 1 + i : Nat) : Int) := by
+  simp only [List.mem_map] at h
+  obtain ⟨⟨k', v⟩, hm, rfl⟩ := h
+  obtain ⟨i, h1, h2⟩ := (mem_arrPairs a off k' v).1 hm
+  refine ⟨i, ?_, h2⟩
+  by_cases hlt : i < a.length
+  · exact hlt
+  · rw [List.getElem?_eq_none (by omega)] at h1; cases h1
+
+theorem arrPairs_nodup (a : List OVal) (off : Nat) : ((arrPairs a off).map (·.1)).Nodup := by
+  induction a generalizing off with
+  | nil => simp [arrPairs]
+  | cons x r ih =>
+    cases x with
+    | none => simp only [arrPairs]; exact ih (off + 1)
+    | some w =>
+      simp only [arrPairs, List.map_cons, List.nodup_cons]
+      refine ⟨?_, ih (off + 1)⟩
+      intro hm
+      obtain ⟨i, _, h2⟩ := mem_arrPairs_keys r (off + 1) _ hm
+      injection h2 with h2
+      omega
+
+theorem mem_keyPairs (t : Tbl) (ks : List Val) (k v : Val) :
+    (k, v) ∈ keyPairs t ks ↔ k ∈ ks ∧ rawGetH t k = some v := by
+  simp only [keyPairs, List.mem_filterMap, Option.map_eq_some_iff]
+  constructor
+  · rintro ⟨a, ha, w, hw, he⟩
+    injection he with e1 e2
+    subst e1; subst e2
+    exact ⟨ha, hw⟩
+  · rintro ⟨h1, h2⟩
+    exact ⟨k, h1, v, h2, rfl⟩
+
+theorem keyPairs_sublist (t : Tbl) (ks : List Val) : ((keyPairs t ks).map (·.1)).Sublist ks := by
+  induction ks with
+  | nil => simp [keyPairs]
+  | cons k r ih =>
+    cases hg : rawGetH t k with
+    | none =>
+      have : keyPairs t (k :: r) = keyPairs t r := by simp [keyPairs, hg]
+      rw [this]; exact List.Sublist.cons k ih
+    | some v =>
+      have : keyPairs t (k :: r) = (k, v) :: keyPairs t r := by simp [keyPairs, hg]
+      rw [this]; simp only [List.map_cons]; exact List.Sublist.cons_cons k ih
+
+/-- **traversal is complete** (for `MaxArrayIndex ≥ 1`): iterating `Next` from nil terminates without
+    panic and yields exactly the present pairs, each key once.
+
+    The original statement had no `0 < t.mai` hypothesis and is *false* for `MaxArrayIndex = 0`
+    (see `traverse_complete_fails_mai_zero` below): `Next(nil)` then fails the test
+    `0 ≤ 0 ∧ 0 < MaxArrayIndex`, falls through to the loop `for i := k2i[LNumber(0)] + 1; …` and
+    skips `keys[0]`.
+    ```
+    theorem traverse_complete (t : Tbl) (h : Inv t) :
+        ∃ l : List (Val × Val), traverse t = .ok l ∧ (l.map (·.1)).Nodup ∧
+          ∀ k v, (k, v) ∈ l ↔ rawGet t k = some v
+    ``` -/
+theorem traverse_complete (t : Tbl) (h : Inv t) (hm : 0 < t.mai) :
     ∃ l : List (Val × Val), traverse t = .ok l ∧ (l.map (·.1)).Nodup ∧
       ∀ k v, (k, v) ∈ l ↔ rawGet t k = some v := by
-  sorry
+  refine ⟨_, traverse_eq t h hm, ?_, ?_⟩
+  · rw [List.map_append, List.nodup_append]
+    refine ⟨arrPairs_nodup _ _, (keyPairs_sublist t t.keys).nodup h.keysNodup, ?_⟩
+    intro a ha b hb e
+    subst e
+    obtain ⟨i, hi, rfl⟩ := mem_arrPairs_keys _ _ _ ha
+    have hb' := h.keysHash _ ((keyPairs_sublist t t.keys).subset hb)
+    have hlt : t.array.length < t.mai := by
+      rcases h.arrLt with h1 | h1
+      · exact h1
+      · rw [h1] at hi; simp at hi
+    rw [arrIdx_int (by omega) (by omega)] at hb'
+    cases hb'
+  · intro k v
+    rw [List.mem_append, mem_arrPairs, mem_keyPairs]
+    constructor
+    · rintro (⟨i, h1, rfl⟩ | ⟨h1, h2⟩)
+      · have hi : i < t.array.length := by
+          by_cases hlt : i < t.array.length
+          · exact hlt
+          · rw [List.getElem?_eq_none (by omega)] at h1; cases h1
+        have hlt : t.array.length < t.mai := by
+          rcases h.arrLt with h2 | h2
+          · exact h2
+          · rw [h2] at hi; simp at hi
+        unfold rawGet
+        rw [arrIdx_int (by omega) (by omega)]
+        simp only
+        have : 0 + 1 + i - 1 = i := by omega
+        rw [this, h1]; rfl
+      · rw [← rawGetH_eq_rawGet t k (h.keysHash k h1)]; exact h2
+    · intro hg
+      cases hidx : arrIdx t.mai k with
+      | some n =>
+        left
+        obtain ⟨rfl, hn0, hn1⟩ := arrIdx_some hidx
+        unfold rawGet at hg
+        rw [hidx] at hg
+        simp only at hg
+        refine ⟨n - 1, ?_, by congr 2; omega⟩
+        cases hx : t.array[n - 1]? with
+        | none => rw [hx] at hg; cases hg
+        | some x => rw [hx] at hg; simp at hg; rw [hg]
+      | none =>
+        right
+        rw [← rawGetH_eq_rawGet t k hidx] at hg
+        refine ⟨?_, hg⟩
+        unfold rawGetH at hg
+        split at hg
+        · exact (h.strKeys k v hg).2
+        · exact (h.dictKeys k v hg).2.2
+
+/-- the unguarded statement is false — whatever the invariant, as long as it holds of fresh tables and is
+    kept by `RawSet`: with `MaxArrayIndex = 0`, after `t["a"] = 1` the traversal from nil visits nothing. -/
+theorem traverse_complete_fails_mai_zero :
+    ¬ (∀ t : Tbl, Inv t → ∃ l : List (Val × Val), traverse t = .ok l ∧ (l.map (·.1)).Nodup ∧
+        ∀ k v, (k, v) ∈ l ↔ rawGet t k = some v) := by
+  intro H
+  obtain ⟨l, h1, _, h3⟩ :=
+    H (rawSet { mai := 0 } (.str "61") (some (.int 1))) (inv_rawSet _ _ _ inv_empty)
+  have e1 : traverse (rawSet { mai := 0 } (.str "61") (some (.int 1))) = .ok [] := by rfl
+  have e2 : rawGet (rawSet { mai := 0 } (.str "61") (some (.int 1))) (.str "61") = some (.int 1) := by decide
+  rw [e1] at h1
+  injection h1 with h1
+  have := (h3 _ _).2 e2
+  rw [← h1] at this
+  cases this
 
 end GLua.Table
